@@ -27,6 +27,8 @@ structure CaseResult where
   specs : List String := []     -- property predicate false on the implementation history
   bad   : List String := []     -- malformed input (harness bug)
   nontrivial : Bool := false    -- did the case exercise the behaviour in question
+  infos : List String := []     -- remarks that are not verdicts (e.g. case outside the model's domain)
+  skipped : Bool := false       -- the case could not be judged (outside the model's domain)
 deriving Repr
 
 def CaseResult.ok (r : CaseResult) : Bool := r.diffs.isEmpty && r.specs.isEmpty && r.bad.isEmpty
